@@ -1,5 +1,8 @@
 use aws_lc_rs::digest::{self, Digest, SHA384};
+#[cfg(not(paseto_verif))]
 use aws_lc_rs::rand::{SecureRandom, SystemRandom};
+#[cfg(paseto_verif)]
+use crate::verif::{SecureRandom, SystemRandom};
 use paseto_core::PasetoError;
 use paseto_core::key::HasKey;
 use paseto_core::pae::{WriteBytes, pre_auth_encode};
